@@ -207,3 +207,50 @@ def corpus(d):
         'PUT', '/resource_classes/CUSTOM_UNUSED', '1.2',
         {'name': 'CUSTOM_RENAMED'})
     return out
+
+
+TEMPLATES = {
+    'rps': '/resource_providers', 'rp': '/resource_providers/{uuid}',
+    'invs': '/resource_providers/{uuid}/inventories',
+    'inv': '/resource_providers/{uuid}/inventories/{resource_class}',
+    'rp_aggs': '/resource_providers/{uuid}/aggregates',
+    'rp_traits': '/resource_providers/{uuid}/traits',
+    'allocs': '/allocations', 'alloc': '/allocations/{consumer_uuid}',
+    'trait': '/traits/{name}', 'rc': '/resource_classes/{name}',
+    'rcs': '/resource_classes', 'reshaper': '/reshaper'}
+
+
+def random_corpus(svc, spec):
+    """{name: Req}, {name: snapshot path}: write requests that are ACCEPTED
+    in a random reachable state (built by a random history), one state per
+    request."""
+    import random
+    from pv.gen.history import HistoryGen, Names
+    from pv.routes import classify
+    corp, snaps = {}, {}
+    for case in range(spec['first'], spec['first'] + spec['count']):
+        rng = random.Random('corpus/%s/%s' % (spec['seed'], case))
+        svc.fresh()
+        names = Names(rng, n_rp=5, n_cons=3)
+        gen = HistoryGen(rng, names, p_bad=0.05)
+        d = svc.dump()
+        for _ in range(rng.randint(15, 45)):
+            svc.client.send(gen.next(d))
+            d = svc.dump()
+        snap = svc.app.snapshot(svc.app.db_path + '.rc%d' % case)
+        for attempt in range(25):
+            req = gen.next(d)
+            if req['method'] == 'GET':
+                continue
+            svc.app.restore(snap)
+            r = svc.client.send(req)
+            if 200 <= r.status < 300:
+                route = classify(req['path'])[0]
+                name = '%s %s [random state %d, 1.%s]' % (
+                    req['method'], TEMPLATES.get(route, route), case,
+                    (req['version'] or '1.0').split('.')[-1])
+                corp[name] = req
+                snaps[name] = snap
+                break
+    svc.app.restore(svc.pristine)
+    return corp, snaps
